@@ -156,7 +156,13 @@ def oracle(case, tr: C.Trace) -> tuple[list[Violation], dict]:
                 elif state == "initialised":
                     viol("init:twice", "%s: second init callback in tick %d without a finalize in between" % (tag, tick))
                 elif any(ct <= tick for ct in cancelled_by_request.get(it.id, [])):
-                    viol("cancelled-instance-restarted", "%s: a cancel request for this instance was accepted before tick %d; it "
+                    # was the finalize done by the cancel request itself (between two ticks: the harness labelled the callback
+                    # with the tick before) or only later inside a tick?  Immediate finalize + restart = a stale request of the
+                    # same name re-created the instance (by-name request lookup, the reinit-after-finalize family)
+                    fin_pos = max(q for q, _ in it.fin if q < pos)
+                    deferred = tr.events[fin_pos][0] == last_fin
+                    viol("cancelled-instance-restarted" if deferred else "cancelled-instance-restarted:stale-request-of-same-name",
+                         "%s: a cancel request for this instance was accepted before tick %d; it "
                          "was finalized in tick %d, then initialised again in tick %d and executed from iteration 0 (%d exec "
                          "callbacks after the accepted cancel)"
                          % (tag, cancelled_by_request[it.id][0], last_fin, tick, sum(1 for q, _ in it.exec if q > pos)))
@@ -356,6 +362,12 @@ def run_shard(col, cfg):
             classes.append("user-command")
         if "Alarm" in kinds:
             classes.append("alarm")
+        per_line: dict = {}
+        for it in C.instances(tr.events, tr).values():
+            if it.exec:
+                per_line[(it.name, it.args)] = per_line.get((it.name, it.args), 0) + 1
+        if any(v > 1 for v in per_line.values()):
+            classes.append("line-invoked-again(same-command-and-argument)")
         if info["tick_raised"]:
             classes.append("tick-raised(judged-by-C13)")
         if info["finalize_without_init"]:
